@@ -457,7 +457,7 @@ func vReadOracle(rec *vRecorder, codec string, data []byte, off int, z bool, res
 	}
 	if !strings.HasPrefix(res, "ok") {
 		if off < len(data) {
-			rec.Violation("C02", "casblob.read.error."+codec, fmt.Sprintf("read of a well-formed %d-byte blob at offset %d failed: %s (zstd=%v)", len(data), off, res, z),
+			rec.Violation("C02,C20", "casblob.read.error."+codec, fmt.Sprintf("read of a well-formed %d-byte blob at offset %d failed: %s (zstd=%v)", len(data), off, res, z),
 				map[string]interface{}{"size": len(data), "offset": off, "zstd": z})
 		}
 		return
@@ -466,7 +466,7 @@ func vReadOracle(rec *vRecorder, codec string, data []byte, off int, z bool, res
 	if z {
 		d, err := decode(out)
 		if err != nil {
-			rec.Violation("C02", "casblob.read.undecodable."+codec, fmt.Sprintf("zstd output at offset %d does not decode: %v", off, err),
+			rec.Violation("C02,C20", "casblob.read.undecodable."+codec, fmt.Sprintf("zstd output at offset %d does not decode: %v", off, err),
 				map[string]interface{}{"size": len(data), "offset": off})
 			return
 		}
@@ -477,7 +477,7 @@ func vReadOracle(rec *vRecorder, codec string, data []byte, off int, z bool, res
 		want = data[off:]
 	}
 	if !bytes.Equal(got, want) || (!z && !clean) {
-		rec.Violation("C02", "casblob.read.content."+codec, fmt.Sprintf("read of %d-byte blob at offset %d returned %d bytes (want %d), equal=%v clean=%v zstd=%v", len(data), off, len(got), len(want), bytes.Equal(got, want), clean, z),
+		rec.Violation("C02,C20", "casblob.read.content."+codec, fmt.Sprintf("read of %d-byte blob at offset %d returned %d bytes (want %d), equal=%v clean=%v zstd=%v", len(data), off, len(got), len(want), bytes.Equal(got, want), clean, z),
 			map[string]interface{}{"size": len(data), "offset": off, "zstd": z})
 	}
 }
